@@ -129,6 +129,18 @@ func VH_C02_Category(kw, tailLen int) {
 	copy(b2, b)
 	b2[j] = c
 	vhAssert(GetStatementCategory(string(b2)) == StatementUnknown, "a word that is no keyword is an unknown statement")
+	// a longer word that merely STARTS with a keyword (rollbacks, commitment, settle ...) and a keyword
+	// that lost its last letter are unknown statements too (no keyword is a prefix of another one)
+	ext := vhBytes(1 + vhChoose(2))
+	for i := range ext {
+		vhAssume((ext[i] >= 'a' && ext[i] <= 'z') || (ext[i] >= 'A' && ext[i] <= 'Z') || ext[i] == '_' || (ext[i] >= '0' && ext[i] <= '9'))
+	}
+	longer := string(b) + string(ext)
+	vhAssert(GetStatementCategory(longer) == StatementUnknown, "a longer word that starts with a keyword is an unknown statement")
+	vhAssert(GetStatementCategory(longer+" x") == StatementUnknown, "a longer first word that starts with a keyword is an unknown statement")
+	if len(word) > 3 {
+		vhAssert(GetStatementCategory(string(b[:len(b)-1])) == StatementUnknown, "a truncated keyword is an unknown statement")
+	}
 	vhCover("category")
 }
 
@@ -141,12 +153,16 @@ func VH_C03_Labels(U int) {
 	s.sendTransaction = func(t *Transaction) error {
 		vhCheckTran(h, calls, t, true)
 		calls++
+		// the transaction belongs to the handler now: recycling it must not disturb the labels of the
+		// following transactions or the position the parser keeps
+		*t = Transaction{NowPosition: Position{Filename: "recycled", Offset: 1}, NextPosition: Position{Filename: "recycled", Offset: 2}}
 		return nil
 	}
 	pos, err := s.parseEvents(context.Background(), ch)
 	vhAssert(err == nil, "well-formed history parses without error")
 	vhAssert(calls == len(h.exp), "one transaction per committed unit")
-	_ = pos
+	want := vhBoundary(h, len(h.evs), calls)
+	vhAssert(pos.Filename == want.Filename && pos.Offset == want.Offset, "the position kept at the end is the last end label (moved by later rotations)")
 	vhCover("labels")
 }
 
